@@ -169,10 +169,13 @@ theorem dwplusfp_err {xh xl f : Int} (hxh : RepI xh) (hf : RepI f) (hxl : RepI x
       have h2c : (2 : Int) ^ (Nat.log2 xh.natAbs - 52) ≤ 2 ^ (Nat.log2 (xh + f).natAbs - 52 + 1) :=
         pow_le_pow_right₀ (by norm_num) hae2
       rw [pow_succ] at h2c
+      have e2 : (2 : Int) ^ (Nat.log2 (xh + f).natAbs - 52 + 1) = 2 ^ (Nat.log2 (xh + f).natAbs - 52) * 2 :=
+        pow_succ _ _
       have hw : |xl + (xh + f - rnI (xh + f))| < 2 ^ (Nat.log2 (xh + f).natAbs - 52 + 1) := by
-        rw [pow_succ]; omega
+        rw [e2]; omega
       have herr := err_le_of_abs_lt_pow hw
-      rw [pow_succ] at herr
+      rw [e2] at herr
+      clear hw e2
       have hx53 : 2 ^ 53 * 2 ^ (Nat.log2 (xh + f).natAbs - 52) ≤ |xh| := by omega
       have hfl := fix_lower hfix hx53
       have h3 : |xh + xl| ≤ |xh + xl + f| + |f| := by
@@ -180,7 +183,168 @@ theorem dwplusfp_err {xh xl f : Int} (hxh : RepI xh) (hf : RepI f) (hxl : RepI x
         rwa [abs_neg, add_neg_cancel_right] at this
       generalize (2 : Int) ^ (Nat.log2 (xh + f).natAbs - 52) = T at *
       generalize (2 : Int) ^ (Nat.log2 f.natAbs - 52) = B at *
-      trace_state
       omega
 
+/-! ## 3. DWPlusFP on the model -/
+
+theorem abs_lo_le_of_fix {h l : Int} (hfix : h = rnI (h + l)) : |l| ≤ |h| := by
+  have hl := half_ulp_of_fix hfix
+  by_cases he : Nat.log2 h.natAbs - 52 = 0
+  · rw [he, pow_zero] at hl
+    have := abs_nonneg l
+    have := abs_nonneg h
+    omega
+  · have := ulp_mul_le_abs he
+    have hp := two_pow_pos' (Nat.log2 h.natAbs - 52)
+    omega
+
+/-- the argument of the middle addition of DWPlusFP does not overflow -/
+theorem dwplusfp_mid_bound {xh xl f : Int} (hxh : RepI xh) (hfix : xh = rnI (xh + xl))
+    (hA : 2 * |xh| ≤ (maxFin : Int)) (hB : 2 * |f| ≤ (maxFin : Int)) :
+    |xl + (xh + f - rnI (xh + f))| ≤ (maxFin : Int) := by
+  have h1 := abs_lo_le_of_fix hfix
+  have h2 : |xh + f - rnI (xh + f)| ≤ |f| := abs_add_err_le_right hxh
+  have h3 := abs_add_le xl (xh + f - rnI (xh + f))
+  omega
+
+theorem two_pow_2096 : (2 : Int) ^ 2096 = 2 * 2 ^ 2095 := by norm_num
+theorem two_pow_2097 : (2 : Int) ^ 2097 = 4 * 2 ^ 2095 := by norm_num
+
+theorem natCast_two_pow_2097 : ((2 ^ 2097 : Nat) : Int) = 4 * 2 ^ 2095 := by norm_num
+
+theorem natAbs_lt_to_abs {z : Int} {k : Nat} (h : z.natAbs < 2 ^ k) : |z| < 2 ^ k := by
+  rw [← Int.natCast_natAbs z]
+  exact_mod_cast h
+
+/-- the closing Fast2Sum of DWPlusFP, given the values of `sh` and `v`: the result is a valid pair within
+`2^-105` (relative) of the exact sum -/
+theorem dwplusfp_tail {sh v : F64} {xh xl f : Int}
+    (hsh : IsVal sh (rnI (xh + f))) (hv : IsVal v (rnI (xl + (xh + f - rnI (xh + f)))))
+    (hwsh : sh.WF) (hwv : v.WF)
+    (hxh : RepI xh) (hf : RepI f) (hxl : RepI xl) (hfix : xh = rnI (xh + xl))
+    (bx : |xh| < 2 ^ 2095) (bf : |f| < 2 ^ 2095) :
+    (arithmetic.fast_two_sum sh v).Valid ∧
+    |(arithmetic.fast_two_sum sh v).V - (xh + xl + f)| * 2 ^ 105 ≤ |xh + xl + f| := by
+  have hl := half_ulp_of_fix hfix
+  have hxl_le := abs_lo_le_of_fix hfix
+  have hsl : |xh + f - rnI (xh + f)| ≤ |f| := abs_add_err_le_right hxh
+  have hs_le : |rnI (xh + f)| ≤ 2 ^ 2096 := by
+    have := abs_rnI_le (v := xh + f) (repI_two_pow 2096)
+      (by rw [abs_two_pow, two_pow_2096]; have := abs_add_le xh f; omega)
+    rwa [abs_two_pow] at this
+  have hv_le : |rnI (xl + (xh + f - rnI (xh + f)))| ≤ 2 ^ 2096 := by
+    have := abs_rnI_le (v := xl + (xh + f - rnI (xh + f))) (repI_two_pow 2096)
+      (by rw [abs_two_pow, two_pow_2096]
+          have := abs_add_le xl (xh + f - rnI (xh + f)); omega)
+    rwa [abs_two_pow] at this
+  have hov : rn53 (sh.toInt + v.toInt).natAbs ≤ maxFin := by
+    rw [hsh.2, hv.2]
+    refine Nat.le_trans (rn53_le_pow (k := 2097) ?_) two_pow_2097_le_maxFin
+    apply natAbs_le_of_abs_le
+    rw [natCast_two_pow_2097]
+    rw [two_pow_2096] at hs_le hv_le
+    have := abs_add_le (rnI (xh + f)) (rnI (xl + (xh + f - rnI (xh + f))))
+    omega
+  have key : (arithmetic.fast_two_sum sh v).V = sh.toInt + v.toInt ∧
+      (arithmetic.fast_two_sum sh v).Valid ∧ (arithmetic.fast_two_sum sh v).WF := by
+    by_cases hs0 : rnI (xh + f) = 0
+    · exact (fast_two_sum_spec_of_dvd hsh.1 hv.1 hwsh hwv
+        (by rw [hsh.2, hs0]; exact dvd_zero _) hov).2
+    · have hp := dwplusfp_pre hxh hf hl hs0
+      have := abs_rnI_le (repI_rnI (xh + f)) hp
+      exact (fast_two_sum_spec hsh.1 hv.1 hwsh hwv (by rw [hsh.2, hv.2]; exact this) hov).2
+  refine ⟨key.2.1, ?_⟩
+  rw [key.1, hsh.2, hv.2]
+  have h := dwplusfp_err hxh hf hxl hfix
+  have e : rnI (xh + f) + rnI (xl + (xh + f - rnI (xh + f))) - (xh + xl + f)
+      = rnI (xl + (xh + f - rnI (xh + f))) - (xl + (xh + f - rnI (xh + f))) := by ring
+  rw [e, mul_comm]
+  exact h
+
 end F64
+
+namespace TwoFloat
+
+open F64
+
+theorem sub_ft_eq' (f : F64) (x : TwoFloat) :
+    arithmetic.impl_Sub_rTwoFloat_for_rf64.sub f x
+      = arithmetic.fast_two_sum (TwoFloat.new_sub f x.hi).hi (F64.sub (TwoFloat.new_sub f x.hi).lo x.lo) := rfl
+
+theorem lt_2097_of_lt_2095 {n : Nat} (h : n < 2 ^ 2095) : n < 2 ^ 2097 :=
+  Nat.lt_trans h (Nat.pow_lt_pow_right (by norm_num) (by norm_num))
+
+/-- **C03, `TwoFloat + f64` (DWPlusFP, relative error `≤ 2u² = 2^-105`).**  Magnitudes below `2^1021`
+(scaled: `2^2095`); no lower limit: gradual underflow is harmless for addition. -/
+theorem add_tf_bound {x : TwoFloat} {f : F64} (hv : x.Valid) (hw : x.WF)
+    (hff : f.is_finite = true) (hwf : f.WF)
+    (bx : x.hi.toInt.natAbs < 2 ^ 2095) (bf : f.toInt.natAbs < 2 ^ 2095) :
+    (arithmetic.impl_Add_rf64_for_rTwoFloat.add x f).Valid ∧
+    |(arithmetic.impl_Add_rf64_for_rTwoFloat.add x f).V - (x.V + f.toInt)| * 2 ^ 105 ≤ |x.V + f.toInt| := by
+  rw [add_tf_eq]
+  have hA := hw.1.two_mul_abs_le (lt_2097_of_lt_2095 bx)
+  have hB := hwf.two_mul_abs_le (lt_2097_of_lt_2095 bf)
+  obtain ⟨wh, wl⟩ := new_add_words hv.1 hff hw.1 hwf hA hB
+  have vv := (IsVal.of_finite hv.2.1).add wl (dwplusfp_mid_bound hw.1.repI hv.rnI_eq hA hB)
+  have := dwplusfp_tail wh vv (new_add_WF _ _).1 (add_WF _ _) hw.1.repI hwf.repI hw.2.repI hv.rnI_eq
+    (natAbs_lt_to_abs bx) (natAbs_lt_to_abs bf)
+  unfold TwoFloat.V at this ⊢
+  exact this
+
+/-- **C03, `f64 + TwoFloat`** (the same code path as `TwoFloat + f64`) -/
+theorem add_ft_bound {x : TwoFloat} {f : F64} (hv : x.Valid) (hw : x.WF)
+    (hff : f.is_finite = true) (hwf : f.WF)
+    (bx : x.hi.toInt.natAbs < 2 ^ 2095) (bf : f.toInt.natAbs < 2 ^ 2095) :
+    (arithmetic.impl_Add_rTwoFloat_for_rf64.add f x).Valid ∧
+    |(arithmetic.impl_Add_rTwoFloat_for_rf64.add f x).V - (f.toInt + x.V)| * 2 ^ 105 ≤ |f.toInt + x.V| := by
+  have := add_tf_bound hv hw hff hwf bx bf
+  rw [add_comm f.toInt]
+  exact this
+
+/-- **C03, `TwoFloat - f64`** -/
+theorem sub_tf_bound {x : TwoFloat} {f : F64} (hv : x.Valid) (hw : x.WF)
+    (hff : f.is_finite = true) (hwf : f.WF)
+    (bx : x.hi.toInt.natAbs < 2 ^ 2095) (bf : f.toInt.natAbs < 2 ^ 2095) :
+    (arithmetic.impl_Sub_rf64_for_rTwoFloat.sub x f).Valid ∧
+    |(arithmetic.impl_Sub_rf64_for_rTwoFloat.sub x f).V - (x.V - f.toInt)| * 2 ^ 105 ≤ |x.V - f.toInt| := by
+  rw [sub_tf_eq]
+  have hA := hw.1.two_mul_abs_le (lt_2097_of_lt_2095 bx)
+  have hB := hwf.two_mul_abs_le (lt_2097_of_lt_2095 bf)
+  have hB' : 2 * |-f.toInt| ≤ (maxFin : Int) := by rwa [abs_neg]
+  obtain ⟨wh, wl⟩ := new_sub_words hv.1 hff hw.1 hwf hA hB
+  rw [Int.sub_eq_add_neg] at wh wl
+  have vv := (IsVal.of_finite hv.2.1).add wl (dwplusfp_mid_bound hw.1.repI hv.rnI_eq hA hB')
+  have := dwplusfp_tail wh vv (new_sub_WF _ _).1 (add_WF _ _) hw.1.repI hwf.repI.neg hw.2.repI hv.rnI_eq
+    (natAbs_lt_to_abs bx) (by rw [abs_neg]; exact natAbs_lt_to_abs bf)
+  unfold TwoFloat.V at this ⊢
+  rw [Int.sub_eq_add_neg]
+  exact this
+
+/-- **C03, `f64 - TwoFloat`** -/
+theorem sub_ft_bound {x : TwoFloat} {f : F64} (hv : x.Valid) (hw : x.WF)
+    (hff : f.is_finite = true) (hwf : f.WF)
+    (bx : x.hi.toInt.natAbs < 2 ^ 2095) (bf : f.toInt.natAbs < 2 ^ 2095) :
+    (arithmetic.impl_Sub_rTwoFloat_for_rf64.sub f x).Valid ∧
+    |(arithmetic.impl_Sub_rTwoFloat_for_rf64.sub f x).V - (f.toInt - x.V)| * 2 ^ 105 ≤ |f.toInt - x.V| := by
+  rw [sub_ft_eq']
+  have hA := hw.1.two_mul_abs_le (lt_2097_of_lt_2095 bx)
+  have hB := hwf.two_mul_abs_le (lt_2097_of_lt_2095 bf)
+  have hA' : 2 * |-x.hi.toInt| ≤ (maxFin : Int) := by rwa [abs_neg]
+  obtain ⟨wh, wl⟩ := new_sub_words hff hv.1 hwf hw.1 hB hA
+  have e1 : f.toInt - x.hi.toInt = -x.hi.toInt + f.toInt := by ring
+  rw [e1] at wh wl
+  have hfix : -x.hi.toInt = rnI (-x.hi.toInt + -x.lo.toInt) := by
+    rw [← neg_add, rnI_neg, ← hv.rnI_eq]
+  have hm := dwplusfp_mid_bound hw.1.repI.neg hfix hA' hB
+  have e2 : -x.lo.toInt + (-x.hi.toInt + f.toInt - rnI (-x.hi.toInt + f.toInt))
+      = (-x.hi.toInt + f.toInt - rnI (-x.hi.toInt + f.toInt)) - x.lo.toInt := by ring
+  have vv := wl.sub (IsVal.of_finite hv.2.1) (by rw [← e2]; exact hm)
+  rw [← e2] at vv
+  have := dwplusfp_tail wh vv (new_sub_WF _ _).1 (sub_WF _ _) hw.1.repI.neg hwf.repI hw.2.repI.neg hfix
+    (by rw [abs_neg]; exact natAbs_lt_to_abs bx) (natAbs_lt_to_abs bf)
+  unfold TwoFloat.V at this ⊢
+  have e3 : f.toInt - (x.hi.toInt + x.lo.toInt) = -x.hi.toInt + -x.lo.toInt + f.toInt := by ring
+  rw [e3]
+  exact this
+
+end TwoFloat
